@@ -43,8 +43,8 @@ PROPS = {
         anchors=[("src/tokenization.rs", r"fn merge_bytes\("), ("src/tokenization.rs", r"impl Tokenize for BPETokenizer"), ("src/tokenization.rs", r"impl BPETokenizer")],
         rule="well-formed merge tables: 12 adversarial families (competing overlaps, chains ab/abc/abcd, aa-runs, merges that become possible only after a later merge, space-prefixed words) + random well-formed tables over 3-5 letters incl. a 2-byte letter, 0-40 entries; max_vocab_size below/at/above the table; prefix/suffix configs; strings over the table alphabet with all whitespace kinds, leading/trailing/multiple whitespace, special spellings; arbitrary id sequences for de_tokenize",
         trusted=UNICODE + ["regex \\s+\\S+|^\\S+ is modelled by splitWords and compared on every request; rmp-serde merge files are written with the crate's own SerializeMsgPack"],
-        claim="Model of BPETokenizer (word splitting, heap-driven merge loop with Rust's tuple ordering, truncation by max_vocab_size, tokenize/de_tokenize incl. UTF-8 validation) compared exactly with the implementation on every request; oracle: decode(encode(s)) == s.trim_end(), every id < vocab_size. Theorems: see evidence (the list of theorems in Props/C02.lean is audited on every run); the losslessness theorems mergeWordImpl_concat / splitWords_flatten are being proved against this model.",
-        note="Until the concat theorems land, losslessness is decided by exact correspondence + the direct round-trip oracle (stated as such).",
+        claim="Theorems for every well-formed merge table and every word of bytes: mergeWordImpl_concat (the ids produced by the heap-driven merge loop decode, token by token, to byte strings that concatenate to the word, and every id is < 256 + |table|, i.e. a vocabulary id), splitWords_flatten (the words of the splitter \\s+\\S+|^\\S+ concatenate to the text without its trailing whitespace), idBytes_eq_bpeIdBytes. Together: the decoded bytes of a tokenisation are the input bytes without trailing whitespace (hence valid UTF-8). Model of BPETokenizer (word splitting, merge loop with Rust's tuple ordering, truncation by max_vocab_size, tokenize/de_tokenize incl. UTF-8 validation) compared exactly with the implementation on every request; oracle: decode(encode(s)) == s.trim_end(), every id < vocab_size.",
+        note="The end-to-end composition (tokenize -> de_tokenize at text level, prefix/suffix, max_vocab_size truncation preserving well-formedness) is covered by exact correspondence + the round-trip oracle; the word-level and splitter-level theorems are proved.",
         min_nontrivial={"quick": 300, "thorough": 5000},
         reject_ok=True,
     ),
@@ -53,8 +53,8 @@ PROPS = {
         rule="words over the table alphabet for the same table families as C02 (adversarial + random well-formed tables); op bpeword returns the implementation's ids for the word and an independent naive lowest-id-leftmost BPE written in the harness; the model returns mergeWordImpl and mergeWordSpec; thorough adds all words of length <= 6 over {a,b,c} for 112 tables",
         exhaustive={"thorough": "all 1092 words of length 1..6 over {a,b,c} x (12 adversarial + 100 random) tables"},
         trusted=["BinaryHeap pop order is modelled as 'a maximal element of Rust's derived tuple Ord' (HEntry.lt)"],
-        claim="Model: mergeWordImpl (the heap loop as coded, after the D2/D3 repair) and mergeWordSpec (the property's definition verbatim). Every request compares implementation == mergeWordImpl and naive reference == mergeWordSpec, and the oracle demands implementation == naive reference. The refinement theorem mergeWordImpl_eq_spec is being proved; theorems present in Props/C03.lean are audited on every run.",
-        note="D2/D3 (stale heap entries, early exit) were found by this check and repaired by a fix: commit.",
+        claim="Theorems for every well-formed merge table and every word of bytes: mergeWordImpl_eq_spec (the heap-driven loop as coded — entries popped in Rust's tuple order, staleness test on recorded ids, re-push with updated ids — returns exactly the property's definition: repeatedly merge the adjacent pair with the lowest merge id, leftmost on ties, until none is mergeable), specLoop_terminal + terminal_iff (no adjacent pair of the result is a table key), bestPair_is_min (the spec's choice is the lowest-id leftmost mergeable pair), mergeWordImpl_isSome (the loop's fuel is never exhausted). Every request compares implementation == mergeWordImpl and an independent naive reference (harness) == mergeWordSpec, and the oracle demands implementation == naive reference.",
+        note="BinaryHeap is modelled as 'pop a maximal element of the derived tuple Ord'. D2/D3 (stale heap entries, early exit) were found by this check and repaired by a fix: commit.",
         min_nontrivial={"quick": 300, "thorough": 5000},
     ),
     "C04": dict(
